@@ -17,6 +17,8 @@ THEOREMS = {
         "Dawgs.C05.Props.sorted_order_free",
         "Dawgs.C05.Props.assert_kinds_idempotent",
         "Dawgs.C05.Props.unchecked_put_registers_twice",
+        "Dawgs.C05.Props.assert_kinds_repeatable",
+        "Dawgs.C05.Props.assert_kinds_old_order_depends_on_state",
     ],
     "Dawgs.Props.C05Facts": [
         "Dawgs.C05.Facts.table_nonempty",
@@ -26,11 +28,14 @@ THEOREMS = {
         "Dawgs.C05.Facts.parameter_map_copied",
         "Dawgs.C05.Facts.caller_query_only_copied",
         "Dawgs.C05.Facts.generic_shape",
+        "Dawgs.C05.Facts.sort_comparators_total",
         "Dawgs.C05.Facts.no_nondeterminism_sources",
         "Dawgs.C05.Facts.inputs_not_written",
+        "Dawgs.C05.Facts.library_values_not_written",
         "Dawgs.C05.Facts.unguarded_partial_sites_known",
         "Dawgs.C05.Facts.kind_mapper_locked",
         "Dawgs.C05.Facts.kind_mapper_check_then_act",
+        "Dawgs.C05.Facts.assert_kinds_order",
         "Dawgs.C05.Facts.kind_mapper_single_writer",
     ],
     # the first-match loop of PruneDefinitions over the alias map is justified by C06's invariant
@@ -50,6 +55,7 @@ HAND_PANIC_SITES = [
 
 def do_regen(ctx):
     regen.c05_facts()
+    regen.goext("c12api", "C12Api.lean")   # graph/*.go: which methods write through their receiver (shared with C12)
 
 
 def _field(line, name):
@@ -86,6 +92,8 @@ def finding_key(suite, ops, line, msg):
         return "C05:InferExpressionType:nil-parameter-panic"
     if cls == "params-mutated:nil-slice-to-empty":
         return "C05:MapStringAnyToJSONB:mutates-caller-parameter-value"
+    if cls == "kindmapper-id-order":
+        return "C05:InMemoryKindMapper.AssertKinds:id-order-depends-on-state"
     if cls == "kindmapper-contract":
         return "C05:InMemoryKindMapper.AssertKinds:kind-registered-twice"
     if cls == "kindmapper-race":
@@ -136,10 +144,14 @@ SPEC = {
     "panic_is_violation": True,
     "rule": "suite c05 (search): cases = every Cypher text of the repository corpora (with their cypher_params) + generated queries (300 quick / 3000 thorough) + "
             "reflection mutants of each (1 / 6 per query: nil-ed optional, dropped / duplicated / swapped list item, flipped flag) + 27 queries assembled with the "
-            "builders of /repo/query (supported and unsupported shapes) + 32 hand-assembled cypher model values with nil optionals + 9 parameter-shape cases + the "
+            "builders of /repo/query (supported and unsupported shapes) + 32 hand-assembled cypher model values with nil optionals + the "
             "kind-mapper race probe + 24 (200) kind-mapper contract cases (16 goroutines translate the same CREATE naming FRESH kinds against one mapper: outputs byte-equal, "
-            "afterwards one id per kind, one kind per id, ids dense; every third case is the single-threaded repeated label (n:K:K)) + 10 fixed and 40 (600) generated "
-            "multi-path shapes (2-3 path variables, each referenced at least twice through nodes()/relationships()/size() in RETURN or only in the tail WHERE). Battery per case: the SAME AST object and parameter map translated 10x sequentially and 16x concurrently against ONE kind mapper "
+            "afterwards one id per kind, one kind per id, ids dense; label lists mixing already registered and fresh kinds in every order, first call vs "
+            "sequential repeat vs the 16 concurrent calls; the single-threaded repeated label (n:K:K)) + 10 fixed and 40 (600) generated "
+            "multi-path shapes (2-3 path variables, each referenced at least twice through nodes()/relationships()/size() in RETURN or only in the tail WHERE). + 16 totality shapes + 12 fixed and 40 (600) generated property maps whose keys differ only in case (ASCII and Unicode case pairs; node / relationship / "
+            "CREATE / SET += positions; values as parameters so that the walk order shows in the parameter numbering) + 16 parameter-shape cases including library values "
+            "(*graph.Properties fresh with nil Map, with nil tracking sets, after Set/Delete, nil pointer; graph.Kinds, []graph.ID(nil), *time.Time, empty vs nil slices and maps) "
+            "compared structurally before / after the sequential phase and after the concurrent phase, nil-vs-empty included. Battery per case: the SAME AST object and parameter map translated 10x sequentially and 16x concurrently against ONE kind mapper "
             "shared by the whole run, each under recover with a 10 s budget; all 26 outcomes (status, error text, SQL, result parameters) byte-compared; ToSexp(AST) and "
             "ToSexp(params) compared before/after. Non-trivial = the full battery of 26 translations ran (the query translates or is rejected with an error). "
             "suite walkc05 (tie): the REAL walk.Generic instantiated on the harness's tree type with scripted visitors (Consume / SetDone / SetError at the k-th callback, "
@@ -171,13 +183,15 @@ MANIFEST = {
             "(assert_kinds_idempotent over the lock-level LTS). "
             "KERNEL-CHECKED on tables regenerated from the current sources: DETERMINISM — every `range` over a map in translate/, optimize/, format/, pgsql/ (+ cypher/, walk/, "
             "pgutil) has an order-insensitive shape recognised by the extractor (writes only into another map/set, commutative accumulation, sorted before use, constant-result "
-            "test) or is one of three exempt loops with a stated reason (no_order_sensitive_range, exempt_have_reasons); there is NO select, go statement, clock, random, "
+            "test) or is one of three exempt loops with a stated reason (no_order_sensitive_range, exempt_have_reasons); every sort with a caller-supplied order is a total order on the elements (sort_comparators_total; none exists "
+            "today, and the range classifier applies the same rule to sorted-before-use); there is NO select, go statement, clock, random, "
             "sync.Map, reflective or iterator map traversal, %p, unsafe or environment read in those packages (no_nondeterminism_sources). TRUSTED STEP: a sequential Go program "
             "without these constructs computes a function of its inputs. SIDE-EFFECT FREEDOM — no assignment, delete, mutating method or reflective setter in translate/, "
             "format/, pgsql/ targets a cypher model value; every write into a map[string]any goes into a map made in the same function, the translation's result map, or a "
             "field that only ever holds such maps; NewTranslator copies the caller's parameter map; Optimize uses the caller's query only through cypher.Copy and Translate "
             "only through Optimize; the kind mapper is only read except AssertKinds from the CREATE builders, the one allowed effect (inputs_not_written, parameter_map_copied, "
-            "caller_query_only_copied). TRUSTED STEP: the typed syntactic classification sees every write (no aliasing of an input through a differently typed path; nested "
+            "caller_query_only_copied); every method called on a graph-package value (a caller's parameter value) is non-mutating by the C12 API table "
+            "(library_values_not_written). TRUSTED STEP: the typed syntactic classification sees every write (no aliasing of an input through a differently typed path; nested "
             "parameter VALUES other than map[string]any are covered by the run-time deep comparison only). The kind mapper's lock table: every method touching the maps holds "
             "the lock, check and allocation share one critical section (kind_mapper_locked, kind_mapper_check_then_act). "
             "TOTALITY — NOT proved. Narrowed: of the partial operations of translate/ (single-value type assertions, slice indexes, slice expressions) 80 are structurally safe, "
